@@ -111,9 +111,12 @@ Y == Var("y")
 PairData == [ lists |-> [x |-> VL(I3), y |-> VL(<<VI(9), VI(8), VI(7)>>)],
               ints  |-> [x |-> VLg(I3, "ints"), y |-> VLg(<<VI(9), VI(8), VI(7)>>, "ints")],
               strs  |-> [x |-> VLg(S3, "strs"), y |-> VLg(<<VS(<<122>>), VS(<<121>>), VS(<<120>>)>>, "strs")],
+              \* (an untyped list and a typed one: filters that convert typed lists may keep scratch space between calls)
+              mixed |-> [x |-> VL(<<VS(<<97>>), VS(<<98>>), VS(<<99>>), VS(<<100>>)>>), y |-> VLg(<<VI(9), VI(8)>>, "ints")],
+              mixed2 |-> [x |-> VLg(S3, "anycap"), y |-> VLg(<<VS(<<122>>), VS(<<121>>)>>, "strs")],
               maps  |-> [x |-> VM(<<VS(<<97>>), VS(<<98>>)>>, <<VI(1), VI(2)>>), y |-> VM(<<VS(<<112>>), VS(<<113>>)>>, <<VI(7), VI(8)>>)],
               msis  |-> [x |-> VMg(<<VS(<<97>>), VS(<<98>>)>>, <<VI(1), VI(2)>>, "msi"), y |-> VMg(<<VS(<<112>>), VS(<<113>>)>>, <<VI(7), VI(8)>>, "msi")] ]
-PairSteps == {"sort", "reverse", "slice", "slicetail", "keys", "merge", "default"}
+PairSteps == {"sort", "reverse", "slice", "slicetail", "keys", "merge", "default", "join"}
 PairCases == {[fam |-> "pair", d |-> d, f |-> f, form |-> fo] : d \in DOMAIN PairData, f \in PairSteps, fo \in {"sets", "nested", "array"}}
 PairProg(c) ==
     CASE c.form = "sets"   -> <<Set("a", Step(c.f, X)), Set("b", Step(c.f, Y)), D(Var("a")), T(<<124>>), D(Var("b")), T(<<124>>), D(Var("a")), T(<<124>>), D(X), T(<<124>>), D(Y)>>
@@ -145,7 +148,9 @@ ObjCases == {[fam |-> "objs", d |-> d, p |-> p] : d \in {"counters", "counterarr
 \* family 9: functions and filters that walk the whole value (what they give is C19's business or not stated at all:
 \* only the caller's data and the repeatability are checked)
 MiiMap == VMg(<<VI(1), VS(<<49>>)>>, <<VS(<<97>>), VS(<<98>>)>>, "mii")          \* map[interface{}]interface{}{1: "a", "1": "b"}
-WalkData == [ f64nan |-> VLg(I3, "f64nan"), f32s |-> Data.f32s, strs |-> Data.strs,
+WalkData == [ zerotime |-> [t |-> "shape", kind |-> "zerotimeptr"], zeroholder |-> [t |-> "shape", kind |-> "zerotimeholder"],
+              secrets |-> VM(<<VS(<<107>>)>>, <<VM(<<VS(<<112, 97, 115, 115, 119, 111, 114, 100>>), VS(<<116, 111, 107, 101, 110>>)>>, <<VS(<<112, 119>>), VM(<<VS(<<115, 101, 99, 114, 101, 116>>)>>, <<VS(<<115>>)>>)>>)>>),
+              f64nan |-> VLg(I3, "f64nan"), f32s |-> Data.f32s, strs |-> Data.strs,
               anycap |-> Data.anycap, any |-> Data.any, ints |-> Data.ints, map |-> Data.map, msi |-> Data.msi,
               nestmii |-> VM(<<VS(<<107>>)>>, <<MiiMap>>), listmii |-> VL(<<MiiMap, VI(2)>>),
               deepmii |-> VM(<<VS(<<107>>)>>, <<VL(<<VM(<<VS(<<106>>)>>, <<MiiMap>>)>>)>>) ]
@@ -156,6 +161,7 @@ WalkProgs == [ jsonf    |-> <<D(F("json_encode", X)), T(<<124>>), D(X)>>,
                mergefnh |-> <<D(Call("merge", <<X, Hash(<<LS(NT.z)>>, <<LI(9)>>)>>)), T(<<124>>), D(X)>>,
                mergefnset |-> <<Set("m", Call("merge", <<X, Arr(<<LI(9)>>)>>)), Set("n", Call("merge", <<X, Arr(<<LI(8)>>)>>)), D(Var("m")), D(Var("n")), D(X)>>,
                lengthf  |-> <<D(F("length", X)), D(F("keys", X)), D(X)>>,
+               datef    |-> <<D(FA("date", X, <<LS(<<89>>)>>)), D(FA("date", Attr(X, "at"), <<LS(<<89>>)>>)), T(<<124>>), D(Attr(X, "n"))>>,
                sortf    |-> <<D(F("sort", X)), T(<<124>>), D(X), T(<<124>>), D(F("first", F("sort", X))), D(F("last", F("sort", F("reverse", X))))>>,
                minmaxf  |-> <<D(Call("max", <<X>>)), D(Call("min", <<X>>)), T(<<124>>), D(X)>>,
                joinf    |-> <<D(FA("join", F("sort", X), <<LS(<<44>>)>>)), For1("i", F("sort", X), <<D(Var("i"))>>), T(<<124>>), D(X)>> ]
@@ -196,7 +202,8 @@ CaseOf(c) ==
      entry |-> "main", ctx |-> CtxOf(c), cfg |-> [globals |-> IF c.fam = "glob" THEN Globals18 ELSE EmptyFn],
      \* (the second run: the engine in debug mode)
      runs |-> {[label |-> c.fam, tp |-> Sources(Tp(c), LMin), xcalls |-> [id \in {} |-> 0], shared |-> 2],
-               [label |-> c.fam \o "/debug", tp |-> Sources(Tp(c), LMin), xcalls |-> [id \in {} |-> 0], shared |-> 2, debug |-> TRUE]},
+               [label |-> c.fam \o "/debug", tp |-> Sources(Tp(c), LMin), xcalls |-> [id \in {} |-> 0], shared |-> 2, debug |-> TRUE]}
+              \cup (IF c.fam = "walk" THEN {[label |-> c.fam \o "/verbose", tp |-> Sources(Tp(c), LMin), xcalls |-> [id \in {} |-> 0], shared |-> 2, debug |-> TRUE, verbose |-> TRUE]} ELSE {}),
      \* (what merge makes of arguments of mixed kinds is not stated: only the caller's data and the repeatability are checked)
      expect |-> IF c.fam \in {"mergeargs", "objs", "walk"} THEN [ok |-> TRUE, anyoutcome |-> TRUE, out |-> <<>>, noout |-> TRUE, err |-> "", calls |-> [id \in {} |-> 0]]
                 ELSE [ok |-> ref.ok, out |-> ref.out, err |-> ref.err, calls |-> [id \in {} |-> 0]]]
